@@ -71,6 +71,10 @@ CHECKS.update({
     'C09': dict(category='model_checking', text='TLC checks on EioClient that received messages are handled exactly once in arrival order, application messages are transmitted at most once and in order, and the transport becomes websocket only through the probe handshake, on polling, upgrade and websocket models; scripted-server conversations (PINGs with arbitrary data, bursts of 1..40 messages, NOOPs, unknown packet types, probe answered correctly / wrongly / never / socket closed, sends of every payload kind in bursts of 1..40, five URL forms with scheme / port / path / query variations, silence from every point) run on both real clients; the trace records every transmitted packet by token (binary as binary frame on websocket, base64 in POST bodies - checked when the harness interns it), URL facts per request, request timeouts and the virtual time of every timeout, and TLC validates each trace against EioClient (PONG echo, batching, probe sequence, silence deadlines pi+pt / max(pi,pt)+5 s).', note=CLIENT_NOTE, technique='TLA+ spec EioClient: TLC exhaustive + TLC batch trace validation of real client conversations', design_ref='6 (C09), 3.2', engine='tlc-trace'),
 })
 
+CHECKS.update({
+    'C10': dict(category='model_checking', text='The end-to-end contract EioE2E (two FIFO channels of numbered messages, a connection bit per side, one disconnect per side) is model-checked by TLC for its own invariants; real conversations are then run between a real client and a real server of this package in one deterministic world - all four implementation pairs (threaded pieces on the greenlet hub, asyncio pieces on the virtual loop, one virtual clock), transports [polling], [websocket], [polling, websocket], several heartbeat settings, monitor on/off, background handlers - with bursts of 1..40 sends in either direction (queued back to back and spaced), idle periods of up to 25 heartbeat cycles, disconnect by either side, sends after the end; the ordered application-level events of both sides plus connection bits and transports at every quiescent point are validated by TLC against EioE2E: every delivery is the next message in order and was sent, at quiescence with both sides up everything sent has arrived and both name the same transport, nobody ends an idle connection, and a disconnect by either side is observed exactly once by both.', note='Trusted: TLC + Json module; the in-memory network (harness/e2e.py) hands requests and frames over immediately and in order; the fake client transports (requests / websocket-client / aiohttp look-alikes) and the deterministic schedulers. The two sides are additionally bound to EioClient / EioServer by C03-C09.', technique='TLA+ contract spec EioE2E: TLC exhaustive + TLC trace validation of real client<->server conversations (4 implementation pairs)', design_ref='6 (C10), 3.3', engine='tlc-trace'),
+})
+
 NOT_YET = 'check not built yet at this commit (construction order in DESIGN.md section 8)'
 
 
